@@ -13,10 +13,23 @@ func c03List() (list []string, wildcard bool) {
 	for k := 0; k < n; k++ {
 		// a listed id is any 1-byte string (nobody's identity) or the id of identity "a" / "b"
 		var id string
-		switch vstub.NdChoice("listedKind", 3) {
+		switch vstub.NdChoice("listedKind", 6) {
+		case 3:
+			// an EMPTY entry (a list built by splitting "id,"): it names nobody
+			id = ""
+		case 4:
+			// a truncated id: it names nobody either
+			full := vstub.IDOf("a")
+			id = full[:len(full)/2]
+		case 5:
+			// an id with something appended
+			id = vstub.IDOf("a") + "0"
 		case 0:
 			id = vstub.NdString("listed", 1)
 			vstub.Assume(id != "*")
+			// (not a prefix of a real id either: truncated ids are the concrete case 4, which
+			// replays natively, where ids have another spelling)
+			vstub.Assume(id != vstub.IDOf("a")[:1] && id != vstub.IDOf("b")[:1])
 		case 1:
 			id = vstub.IDOf("a")
 		case 2:
